@@ -34,7 +34,7 @@ def outcome(f, timeout):
         names = [c.__name__ for c in type(e).__mro__]
         if "TimeoutError" in names and not f.done():
             return ["TIMEOUT"]
-        return ["exc", type(e).__name__, names, str(e)[:300]]
+        return ["exc", type(e).__name__, names, str(e)[:700]]
 
 
 ex = ProcessPoolExecutor(max_workers=prog["workers"], timeout=prog["timeout"])
@@ -49,7 +49,7 @@ for i, t in enumerate(prog["tasks"]):
         else:
             futs.append(ex.submit(T.big, i, t[1]))
     except BaseException as e:
-        futs.append(["submit_raised", type(e).__name__, [c.__name__ for c in type(e).__mro__], str(e)[:300]])
+        futs.append(["submit_raised", type(e).__name__, [c.__name__ for c in type(e).__mro__], str(e)[:700]])
     workers.update(ex._processes)
     if prog.get("gap"):
         time.sleep(prog["gap"])
